@@ -45,6 +45,12 @@ fn main() {
     let refid: u32 = get("--refid").map(|s| s.parse().unwrap()).unwrap_or(0x7f7f0101);
     let delay_ms: u64 = get("--delay-ms").map(|s| s.parse().unwrap()).unwrap_or(0);
     let vary = args.iter().any(|a| a == "--vary");
+    // chronyd's reference time only moves when it updates the clock: --hold-ref N keeps it for N seconds
+    let hold_ref: u64 = get("--hold-ref").map(|s| s.parse().unwrap()).unwrap_or(0);
+    let mut held: Option<(Instant, SystemTime)> = None;
+    // "slowsilent": a request is answered after 700 ms, then nothing is answered for 3.5 s (a chronyd that is
+    // restarting right after a slow answer)
+    let mut silent_until: Option<Instant> = None;
     let mut nans = 0usize;
     let t0 = Instant::now();
     let mut emit = |s: String| {
@@ -74,6 +80,13 @@ fn main() {
             if mode == "silent" {
                 continue;
             }
+            if mode == "slowsilent" {
+                if silent_until.map(|t| Instant::now() < t).unwrap_or(false) {
+                    continue;
+                }
+                std::thread::sleep(Duration::from_millis(700));
+                silent_until = Some(Instant::now() + Duration::from_millis(3500));
+            }
             let mut b = BytesMut::from(&buf[..n]);
             let Ok(req) = Request::deserialize(&mut b) else { continue };
             let row = if vary { TABLE[nans % TABLE.len()] } else { TABLE[0] };
@@ -82,7 +95,16 @@ fn main() {
                 ip_addr: ChronyAddr::default(),
                 stratum: 2,
                 leap_status: if mode == "leap3" { 3 } else { 0 },
-                ref_time: SystemTime::now(),
+                ref_time: {
+                    if hold_ref == 0 {
+                        SystemTime::now()
+                    } else {
+                        if held.map(|(t, _)| t.elapsed().as_secs() >= hold_ref).unwrap_or(true) {
+                            held = Some((Instant::now(), SystemTime::now()));
+                        }
+                        held.unwrap().1
+                    }
+                },
                 current_correction: cf(row[0].0, row[0].1),
                 last_offset: 0.0.into(),
                 rms_offset: 0.0.into(),
